@@ -90,6 +90,77 @@ static T launder(T x)
     return v;
 }
 
+// raw bit pattern of a value (no NaN canonicalisation): used by the sign-bit operations fabs / abs /
+// copysign / signbit, whose result is specified for NaNs too (IEC 60559 5.5.1: they set / copy / read
+// the sign bit of every operand)
+template <typename T>
+static u64 rawb(T x)
+{
+    typename Fmt<T>::U v;
+    std::memcpy(&v, &x, sizeof x);
+    return v;
+}
+// functions compared on raw bits in the sweeps (NaN operands of either sign and any payload included)
+static bool raw_op(std::string const& fn) { return fn == "fabs" || fn == "abs" || fn == "copysign" || fn == "copysign_fb"; }
+
+// ---------------------------------------------------------------------------------- rounding modes
+// rint / lrint / llrint round in the CURRENT rounding direction.  The reference is glibc called through
+// volatile function pointers (never the compiler's inline expansion); the etl call sits in a noipa function
+// so that it cannot be moved across fesetround (GCC assumes the default mode without -frounding-math).
+static int fe_of(u64 md) { return md == 1 ? FE_DOWNWARD : (md == 2 ? FE_UPWARD : (md == 3 ? FE_TOWARDZERO : FE_TONEAREST)); }
+static float (*volatile p_rintf)(float)                   = ::rintf;
+static double (*volatile p_rint)(double)                  = ::rint;
+static long double (*volatile p_rintl)(long double)       = ::rintl;
+static long (*volatile p_lrintf)(float)                   = ::lrintf;
+static long (*volatile p_lrint)(double)                   = ::lrint;
+static long (*volatile p_lrintl)(long double)             = ::lrintl;
+static long long (*volatile p_llrintf)(float)             = ::llrintf;
+static long long (*volatile p_llrint)(double)             = ::llrint;
+static long long (*volatile p_llrintl)(long double)       = ::llrintl;
+static float libm_rint(float x) { return p_rintf(x); }
+static double libm_rint(double x) { return p_rint(x); }
+static long double libm_rint(long double x) { return p_rintl(x); }
+static long libm_lrint(float x) { return p_lrintf(x); }
+static long libm_lrint(double x) { return p_lrint(x); }
+static long libm_lrint(long double x) { return p_lrintl(x); }
+static long long libm_llrint(float x) { return p_llrintf(x); }
+static long long libm_llrint(double x) { return p_llrint(x); }
+static long long libm_llrint(long double x) { return p_llrintl(x); }
+template <typename T>
+[[gnu::noinline, gnu::noipa]] static T etl_rint_call(T x) { return etl::rint(x); }
+template <typename T>
+[[gnu::noinline, gnu::noipa]] static long etl_lrint_call(T x) { return etl::lrint(x); }
+template <typename T>
+[[gnu::noinline, gnu::noipa]] static long long etl_llrint_call(T x) { return etl::llrint(x); }
+[[gnu::noinline, gnu::noipa]] static float etl_rintf_call(float x) { return etl::rintf(x); }
+[[gnu::noinline, gnu::noipa]] static long etl_lrintf_call(float x) { return etl::lrintf(x); }
+[[gnu::noinline, gnu::noipa]] static long long etl_llrintf_call(float x) { return etl::llrintf(x); }
+[[gnu::noinline, gnu::noipa]] static long double etl_rintl_call(long double x) { return etl::rintl(x); }
+[[gnu::noinline, gnu::noipa]] static long etl_lrintl_call(long double x) { return etl::lrintl(x); }
+[[gnu::noinline, gnu::noipa]] static long long etl_llrintl_call(long double x) { return etl::llrintl(x); }
+template <typename T>
+[[gnu::noinline, gnu::noipa]] static T ref_rint_call(T x) { return libm_rint(x); }
+template <typename T>
+[[gnu::noinline, gnu::noipa]] static long ref_lrint_call(T x) { return libm_lrint(x); }
+template <typename T>
+[[gnu::noinline, gnu::noipa]] static long long ref_llrint_call(T x) { return libm_llrint(x); }
+template <typename T, typename F>
+[[gnu::noinline, gnu::noipa]] static auto under_mode(u64 md, F f, T x)
+{
+    std::fesetround(fe_of(md));
+    auto r = f(x);
+    std::fesetround(FE_TONEAREST);
+    return r;
+}
+// true when the value rounded in the mode md fits long long (else lrint is unspecified)
+template <typename T>
+static bool lrint_defined(u64 md, T x)
+{
+    if (!(x == x) || std::isinf(x)) { return false; }
+    T r = under_mode(md, ref_rint_call<T>, x);
+    return !(r >= static_cast<T>(9223372036854775808.0) || r < static_cast<T>(-9223372036854775808.0));
+}
+
 template <typename T>
 static void okf(Out& o, T x) { o.tok("ok").unum(tob(x)); }
 static void oki(Out& o, long long x) { o.tok("ok").num(x); }
@@ -303,9 +374,10 @@ static bool run_sweep(std::string const& fn, u64 start, u64 stride, u64 count, O
             if (fn == t[k].name) {
                 found = true;
                 auto e = t[k];
-                par_sweep(start, stride, count, mask, [e](u64 p) {
+                bool const raw = raw_op(fn);
+                par_sweep(start, stride, count, mask, [e, raw](u64 p) {
                     T x = fromb<T>(p);
-                    return tob(e.impl(x)) != tob(e.ref(x));
+                    return raw ? rawb(e.impl(x)) != rawb(e.ref(x)) : tob(e.impl(x)) != tob(e.ref(x));
                 }, bad, first);
             }
         }
@@ -349,7 +421,8 @@ static bool run_sweep(std::string const& fn, u64 start, u64 stride, u64 count, O
             if (fn == t[k].name) {
                 found = true;
                 auto e = t[k];
-                par_sweep(start, stride, count, mask, [e, mask](u64 p) {
+                bool const raw = raw_op(fn);
+                par_sweep(start, stride, count, mask, [e, mask, raw](u64 p) {
                     T x   = fromb<T>(p);
                     u64 q = (p * 0x9E3779B97F4A7C15ULL + (p >> 7)) & mask;
                     u64 alt[5];
@@ -359,11 +432,11 @@ static bool run_sweep(std::string const& fn, u64 start, u64 stride, u64 count, O
                     alt[3] = (p + (q % 5) - 2) & mask;                    // neighbours
                     alt[4] = (p - ((q % 40) << (Fmt<T>::bits == 32 ? 23 : 52))) & mask; // smaller exponent
                     bool mism = false;
-                    if (x != x) { x = fromb<T>(Fmt<T>::qnan); } // signaling NaNs are outside Annex F
+                    if (x != x && !raw) { x = fromb<T>(Fmt<T>::qnan); } // signaling NaNs are outside Annex F
                     for (u64 a : alt) {
                         T y = fromb<T>(a);
-                        if (y != y) { y = fromb<T>(Fmt<T>::qnan); }
-                        if (tob(e.impl(x, y)) != tob(e.ref(x, y))) { mism = true; }
+                        if (y != y && !raw) { y = fromb<T>(Fmt<T>::qnan); }
+                        if (raw ? rawb(e.impl(x, y)) != rawb(e.ref(x, y)) : tob(e.impl(x, y)) != tob(e.ref(x, y))) { mism = true; }
                     }
                     return mism;
                 }, bad, first);
@@ -423,6 +496,136 @@ static bool run_fmt(std::string const& fn, Toks& in, Out& impl, Out& ref)
                 T y = launder(fromb<T>(in.unum()));
                 ubguard(impl, [&](Out& o) { okf(o, t[k].impl(x, y)); });
                 okf(ref, t[k].ref(x, y));
+                return true;
+            }
+        }
+    }
+    // ---- sign-bit operations on raw bit patterns (NaN sign and payload are compared)
+    if (fn == "rawfabs" || fn == "rawabs") {
+        T x = launder(fromb<T>(in.unum()));
+        impl.tok("ok").unum(rawb(fn == "rawfabs" ? etl::fabs(x) : etl::abs(x)));
+        ref.tok("ok").unum(rawb(std::fabs(x)));
+        return true;
+    }
+    if (fn == "rawcopysign" || fn == "rawcopysign_fb") {
+        T x = launder(fromb<T>(in.unum()));
+        T y = launder(fromb<T>(in.unum()));
+        impl.tok("ok").unum(rawb(fn == "rawcopysign" ? etl::copysign(x, y) : etl::detail::copysign_fallback(x, y)));
+        ref.tok("ok").unum(rawb(std::copysign(x, y)));
+        return true;
+    }
+    if (fn == "rawsignbit" || fn == "rawsignbit_fb") {
+        T x = launder(fromb<T>(in.unum()));
+        okb(impl, fn == "rawsignbit" ? etl::signbit(x) : etl::detail::signbit_fallback(x));
+        okb(ref, std::signbit(x));
+        return true;
+    }
+    // ---- rint / lrint / llrint in the four rounding directions: "rm_<fn> <mode 0..3> <bits>"
+    if (fn == "rm_rint" || (fn == "rm_rintf" && Fmt<T>::bits == 32)) {
+        u64 md = in.unum();
+        T x    = launder(fromb<T>(in.unum()));
+        // GCC's inline expansion of __builtin_rint{f,} (|x| + 2^p - 2^p, no -frounding-math) returns -0 for a zero result
+        // of a positive argument under FE_DOWNWARD; that is the compiler's, not the library's: the sign of a zero result is
+        // not compared for binary32 / binary64 (the x87 op rm_rint80 compares it)
+        auto pz = [](T r) -> T { return r == T(0) ? T(0) : r; };
+        if constexpr (Fmt<T>::bits == 32) {
+            okf(impl, pz(fn == "rm_rintf" ? under_mode(md, etl_rintf_call, x) : under_mode(md, etl_rint_call<T>, x)));
+        } else {
+            okf(impl, pz(under_mode(md, etl_rint_call<T>, x)));
+        }
+        okf(ref, pz(under_mode(md, ref_rint_call<T>, x)));
+        return true;
+    }
+    if (fn == "rm_lrint" || fn == "rm_llrint" || (Fmt<T>::bits == 32 && (fn == "rm_lrintf" || fn == "rm_llrintf"))) {
+        u64 md = in.unum();
+        T x    = launder(fromb<T>(in.unum()));
+        bool l = fn == "rm_lrint" || fn == "rm_lrintf";
+        if constexpr (Fmt<T>::bits == 32) {
+            if (fn == "rm_lrintf" || fn == "rm_llrintf") {
+                oki(impl, l ? under_mode(md, etl_lrintf_call, x) : under_mode(md, etl_llrintf_call, x));
+            } else {
+                oki(impl, l ? under_mode(md, etl_lrint_call<T>, x) : under_mode(md, etl_llrint_call<T>, x));
+            }
+        } else {
+            oki(impl, l ? under_mode(md, etl_lrint_call<T>, x) : under_mode(md, etl_llrint_call<T>, x));
+        }
+        if (lrint_defined(md, x)) { oki(ref, l ? under_mode(md, ref_lrint_call<T>, x) : under_mode(md, ref_llrint_call<T>, x)); }
+        return true;
+    }
+    // ---- integral overloads: "i_<fn>64 <long long>", "u_<fn>64 <unsigned long long>" (the argument is converted to double)
+    if constexpr (Fmt<T>::bits == 64) {
+        if (fn.rfind("i_", 0) == 0 || fn.rfind("u_", 0) == 0) {
+            bool uns        = fn[0] == 'u';
+            std::string f   = fn.substr(2);
+            long long sv    = 0;
+            unsigned long long uv = 0;
+            if (uns) { uv = in.unum(); } else { sv = in.num(); }
+            volatile long long vs = sv;
+            volatile unsigned long long vu = uv;
+            sv = vs;
+            uv = vu;
+            double d = uns ? static_cast<double>(uv) : static_cast<double>(sv);
+#define IOVL(NAME, EXPR_S, EXPR_U, REF)                                                                                \
+    if (f == NAME) {                                                                                                   \
+        if (uns) { EXPR_U; } else { EXPR_S; }                                                                          \
+        REF;                                                                                                           \
+        return true;                                                                                                   \
+    }
+            IOVL("floor", okf(impl, etl::floor(sv)), okf(impl, etl::floor(uv)), okf(ref, std::floor(d)))
+            IOVL("ceil", okf(impl, etl::ceil(sv)), okf(impl, etl::ceil(uv)), okf(ref, std::ceil(d)))
+            IOVL("trunc", okf(impl, etl::trunc(sv)), okf(impl, etl::trunc(uv)), okf(ref, std::trunc(d)))
+            IOVL("round", okf(impl, etl::round(sv)), okf(impl, etl::round(uv)), okf(ref, std::round(d)))
+            IOVL("rint", okf(impl, etl::rint(sv)), okf(impl, etl::rint(uv)), okf(ref, std::rint(d)))
+            IOVL("lrint", oki(impl, etl::lrint(sv)), oki(impl, etl::lrint(uv)), ref_lrint<double>(ref, d))
+            IOVL("llrint", oki(impl, etl::llrint(sv)), oki(impl, etl::llrint(uv)), ref_lrint<double>(ref, d))
+            IOVL("isnan", okb(impl, etl::isnan(sv)), okb(impl, etl::isnan(uv)), okb(ref, std::isnan(d)))
+            IOVL("isinf", okb(impl, etl::isinf(sv)), okb(impl, etl::isinf(uv)), okb(ref, std::isinf(d)))
+#undef IOVL
+            return false;
+        }
+    }
+    // ---- the C-style suffixed overloads (floorf, fabsf, ...): "<fn>f32 <bits> [<bits>]"
+    if constexpr (Fmt<T>::bits == 32) {
+        struct SU { char const* name; float (*impl)(float); float (*ref)(float); };
+        static SU const su[] = {
+            {"floorf", [](float x) { return etl::floorf(x); }, [](float x) { return std::floor(x); }},
+            {"ceilf", [](float x) { return etl::ceilf(x); }, [](float x) { return std::ceil(x); }},
+            {"truncf", [](float x) { return etl::truncf(x); }, [](float x) { return std::trunc(x); }},
+            {"roundf", [](float x) { return etl::roundf(x); }, [](float x) { return std::round(x); }},
+            {"rintf", [](float x) { return etl::rintf(x); }, [](float x) { return std::rint(x); }},
+            {"fabsf", [](float x) { return etl::fabsf(x); }, [](float x) { return std::fabs(x); }},
+        };
+        for (auto const& e : su) {
+            if (fn == e.name) {
+                float x = launder(fromb<float>(in.unum()));
+                ubguard(impl, [&](Out& o) { okf(o, e.impl(x)); });
+                okf(ref, e.ref(x));
+                return true;
+            }
+        }
+        if (fn == "lrintf" || fn == "llrintf") {
+            float x = launder(fromb<float>(in.unum()));
+            oki(impl, fn == "lrintf" ? etl::lrintf(x) : etl::llrintf(x));
+            ref_lrint<float>(ref, x);
+            return true;
+        }
+        struct SB { char const* name; float (*impl)(float, float); float (*ref)(float, float); };
+        static SB const sb[] = {
+            {"fmodf", [](float x, float y) { return etl::fmodf(x, y); }, [](float x, float y) { return std::fmod(x, y); }},
+            {"remainderf", [](float x, float y) { float r = etl::remainderf(x, y); return r == 0.0F ? 0.0F : r; },
+                [](float x, float y) { float r = std::remainder(x, y); return r == 0.0F ? 0.0F : r; }},
+            {"copysignf", [](float x, float y) { return etl::copysignf(x, y); }, [](float x, float y) { return std::copysign(x, y); }},
+            {"fminf", [](float x, float y) { return etl::fminf(x, y); }, ref_fmin<float>},
+            {"fmaxf", [](float x, float y) { return etl::fmaxf(x, y); }, ref_fmax<float>},
+            {"fdimf", [](float x, float y) { return etl::fdimf(x, y); }, [](float x, float y) { return std::fdim(x, y); }},
+            {"nextafterf", [](float x, float y) { return etl::nextafterf(x, y); }, [](float x, float y) { return std::nextafter(x, y); }},
+        };
+        for (auto const& e : sb) {
+            if (fn == e.name) {
+                float x = launder(fromb<float>(in.unum()));
+                float y = launder(fromb<float>(in.unum()));
+                ubguard(impl, [&](Out& o) { okf(o, e.impl(x, y)); });
+                okf(ref, e.ref(x, y));
                 return true;
             }
         }
@@ -525,6 +728,78 @@ static bool run80(std::string const& fn, Toks& in, Out& impl, Out& ref)
             return true;
         }
     }
+    // ---- sign-bit operations on the raw encoding (NaN sign and payload compared)
+    auto raw80 = [](Out& o, L x) {
+        unsigned char b[16] = {};
+        std::memcpy(b, &x, sizeof x);
+        u64 m;
+        std::uint16_t se;
+        std::memcpy(&m, b, 8);
+        std::memcpy(&se, b + 8, 2);
+        o.tok("ok").unum((se >> 15) & 1U).unum(m).unum(se & 0x7fffU);
+    };
+    if (fn == "rawfabs" || fn == "rawabs" || fn == "rawfabsl") {
+        L x = from80(in);
+        raw80(impl, fn == "rawfabs" ? etl::fabs(x) : (fn == "rawabs" ? etl::abs(x) : etl::fabsl(x)));
+        raw80(ref, std::fabs(x));
+        return true;
+    }
+    if (fn == "rawcopysign" || fn == "rawcopysignl") {
+        L x = from80(in);
+        L y = from80(in);
+        raw80(impl, fn == "rawcopysign" ? etl::copysign(x, y) : etl::copysignl(x, y));
+        raw80(ref, std::copysign(x, y));
+        return true;
+    }
+    if (fn == "rawsignbit" || fn == "rawsignbit_fb") {
+        L x = from80(in);
+        okb(impl, fn == "rawsignbit" ? etl::signbit(x) : etl::detail::signbit_fallback(x));
+        okb(ref, std::signbit(x));
+        return true;
+    }
+    // ---- rounding directions
+    if (fn == "rm_rint" || fn == "rm_rintl") {
+        u64 md = in.unum();
+        L x    = from80(in);
+        ok80(impl, fn == "rm_rintl" ? under_mode(md, etl_rintl_call, x) : under_mode(md, etl_rint_call<L>, x));
+        ok80(ref, under_mode(md, ref_rint_call<L>, x));
+        return true;
+    }
+    if (fn == "rm_lrint" || fn == "rm_llrint" || fn == "rm_lrintl" || fn == "rm_llrintl") {
+        u64 md = in.unum();
+        L x    = from80(in);
+        bool l = fn == "rm_lrint" || fn == "rm_lrintl";
+        if (fn == "rm_lrintl" || fn == "rm_llrintl") {
+            oki(impl, l ? under_mode(md, etl_lrintl_call, x) : under_mode(md, etl_llrintl_call, x));
+        } else {
+            oki(impl, l ? under_mode(md, etl_lrint_call<L>, x) : under_mode(md, etl_llrint_call<L>, x));
+        }
+        if (lrint_defined(md, x)) { oki(ref, l ? under_mode(md, ref_lrint_call<L>, x) : under_mode(md, ref_llrint_call<L>, x)); }
+        return true;
+    }
+    // ---- the C-style suffixed overloads
+    static U const u1l[] = {
+        {"floorl", [](L x) -> L { return etl::floorl(x); }, [](L x) -> L { return std::floor(x); }},
+        {"ceill", [](L x) -> L { return etl::ceill(x); }, [](L x) -> L { return std::ceil(x); }},
+        {"truncl", [](L x) -> L { return etl::truncl(x); }, [](L x) -> L { return std::trunc(x); }},
+        {"roundl", [](L x) -> L { return etl::roundl(x); }, [](L x) -> L { return std::round(x); }},
+        {"rintl", [](L x) -> L { return etl::rintl(x); }, [](L x) -> L { return std::rint(x); }},
+        {"fabsl", [](L x) -> L { return etl::fabsl(x); }, [](L x) -> L { return std::fabs(x); }},
+    };
+    for (auto const& e : u1l) {
+        if (fn == e.name) {
+            L x = from80(in);
+            ubguard(impl, [&](Out& o) { ok80(o, e.impl(x)); });
+            ok80(ref, e.ref(x));
+            return true;
+        }
+    }
+    if (fn == "lrintl" || fn == "llrintl") {
+        L x = from80(in);
+        oki(impl, fn == "lrintl" ? etl::lrintl(x) : etl::llrintl(x));
+        ref_lrint80<L>(ref, x);
+        return true;
+    }
     struct UB { char const* name; bool (*impl)(L); bool (*ref)(L); };
     static UB const ub[] = {
         {"isnan", [](L x) -> bool { return etl::isnan(x); }, [](L x) -> bool { return std::isnan(x); }},
@@ -574,6 +849,13 @@ static bool run80(std::string const& fn, Toks& in, Out& impl, Out& ref)
         {"remainder", [](L x, L y) -> L { L r = etl::remainder(x, y); return r == 0.0L ? 0.0L : r; },
             [](L x, L y) -> L { L r = std::remainder(x, y); return r == 0.0L ? 0.0L : r; }},
         {"midpoint", [](L x, L y) -> L { return etl::midpoint(x, y); }, [](L x, L y) -> L { return std::midpoint(x, y); }},
+        {"copysignl", [](L x, L y) -> L { return etl::copysignl(x, y); }, [](L x, L y) -> L { return std::copysign(x, y); }},
+        {"fminl", [](L x, L y) -> L { return etl::fminl(x, y); }, ref_fmin<L>},
+        {"fmaxl", [](L x, L y) -> L { return etl::fmaxl(x, y); }, ref_fmax<L>},
+        {"fdiml", [](L x, L y) -> L { return etl::fdiml(x, y); }, [](L x, L y) -> L { return std::fdim(x, y); }},
+        {"fmodl", [](L x, L y) -> L { return etl::fmodl(x, y); }, [](L x, L y) -> L { return std::fmod(x, y); }},
+        {"remainderl", [](L x, L y) -> L { L r = etl::remainderl(x, y); return r == 0.0L ? 0.0L : r; },
+            [](L x, L y) -> L { L r = std::remainder(x, y); return r == 0.0L ? 0.0L : r; }},
     };
     for (auto const& e : b2) {
         if (fn == e.name) {
